@@ -206,7 +206,8 @@ impl<'a> Gen<'a> {
             text = vec![Inl::W(if self.rng.chance(1, 3) { t.dest.to_uppercase() } else { t.dest.clone() })];
         }
         if t.external {
-            let mut style = if self.rng.chance(1, 4) {
+            // (an absolute path is no autolink: that takes a scheme)
+            let mut style = if t.dest.contains(':') && self.rng.chance(1, 4) {
                 LStyle::Auto
             } else {
                 LStyle::Inline
@@ -227,10 +228,12 @@ impl<'a> Gen<'a> {
                 style,
             });
         }
-        let style = match self.rng.below(if in_table { 5 } else { 8 }) {
+        let style = match self.rng.below(if in_table { 6 } else { 8 }) {
             0..=3 => LStyle::Inline,
-            // a bare wiki link is the only other link form that fits into a table cell (a piped one holds a "|")
+            // wiki links are the only other link form that fits into a table cell (a piped one escapes its "|" there)
             4 if in_table => LStyle::Wiki,
+            5 if in_table && self.p.piped_wiki => LStyle::WikiPiped,
+            5 if in_table => LStyle::Inline,
             4 => LStyle::RefDef,
             5 => LStyle::Wiki,
             _ if self.p.piped_wiki => LStyle::WikiPiped,
@@ -298,7 +301,9 @@ impl<'a> Gen<'a> {
                     {
                         let a = self.words.next(self.rng, false);
                         let b = self.words.next(self.rng, false);
-                        Inl::Code(match self.rng.below(6) {
+                        Inl::Code(match self.rng.below(7) {
+                            // a space at both ends is part of the code
+                            6 => format!(" {} {} ", a, b),
                             4 => format!("{}`{}", a, b),
                             5 => format!("`{}`", a),
                             0 => a,
@@ -320,8 +325,15 @@ impl<'a> Gen<'a> {
                     }
                 }
                 21 => {
-                    if in_table && !self.p.has("table-rich-cells") {
-                        self.word()
+                    if in_table && self.rng.chance(1, 2) {
+                        // the usual way to break a line inside a cell
+                        out.push(self.word());
+                        Inl::Html("<br>".into())
+                    } else if !in_table && i > 0 && self.rng.chance(1, 3) {
+                        // a comment that spans two lines (inside an item or a quote its second line carries the container's prefix)
+                        let a = self.words.next(self.rng, false);
+                        let b = self.words.next(self.rng, false);
+                        Inl::Html(format!("<!-- {}\n{} -->", a, b))
                     } else {
                         // inline html pair around a word
                         out.push(Inl::Html("<b>".into()));
@@ -517,9 +529,16 @@ impl<'a> Gen<'a> {
             .map(|_| *self.rng.pick(&['n', 'l', 'c', 'r']))
             .collect();
         let head: Vec<Vec<Inl>> = (0..cols).map(|_| self.inlines(1, 2, true, true)).collect();
-        let body = (0..rows)
+        let mut body: Vec<Vec<Vec<Inl>>> = (0..rows)
             .map(|_| (0..cols).map(|_| self.inlines(1, 2, true, true)).collect())
             .collect();
+        // a cell that ends in a backslash (a Windows path): the backslash must not reach the pipe that closes the cell
+        if self.rng.chance(1, 8) {
+            if let Some(cell) = body.first_mut().and_then(|r| r.first_mut()) {
+                let w = self.words.next(self.rng, false);
+                cell.push(Inl::W(format!("C:\\{}\\", w)));
+            }
+        }
         Blk::Table(aligns, head, body)
     }
 
@@ -574,6 +593,13 @@ impl<'a> Gen<'a> {
                 item.push(b);
             } else {
                 item.push(Blk::Para(first));
+                // a comment on a line of its own inside the item's text: an html block (dropped) between two runs of text
+                if self.p.html_blocks && !long && self.rng.chance(1, 25) {
+                    let w = self.words.next(self.rng, false);
+                    item.push(Blk::Html(vec![format!("<!-- {} -->", w)]));
+                    let v = self.plain_words(1, 3);
+                    item.push(Blk::Para(v));
+                }
             }
             // in long lists only the last items carry more than one block (keeps documents small)
             let multi = if long { items.len() + 6 >= n && self.rng.chance(2, 3) } else { self.rng.chance(1, 3) };
@@ -700,6 +726,11 @@ impl<'a> Gen<'a> {
                     Some(b) => b,
                     None => self.para(),
                 },
+                // an empty quote (a bare ">") between two lists: it is written as nothing, and the lists must stay two
+                19 if self.p.lists && self.p.quotes && prev_list => {
+                    blocks.push(Blk::Quote(vec![]));
+                    self.list(1)
+                }
                 _ => self.para(),
             };
             blocks.push(b);
@@ -724,6 +755,8 @@ pub struct Style {
     /// (a list that directly follows a list of the same kind needs another marker to be a list of its own)
     pub last_marker: Option<char>,
     pub avoid: Option<char>,
+    /// rendering the inlines of a table cell (a piped wiki link escapes its pipe there)
+    pub in_cell: bool,
 }
 
 fn render_inlines(v: &[Inl], st: &mut Style, defs: &mut Vec<(String, String)>) -> String {
@@ -766,7 +799,7 @@ fn render_inlines(v: &[Inl], st: &mut Style, defs: &mut Vec<(String, String)>) -
                 // delimiter longer than any backtick run inside; padded when the code starts or ends with a backtick
                 let longest = c.split(|ch| ch != '`').map(|r| r.len()).max().unwrap_or(0);
                 let d = "`".repeat(longest + 1 + if longest > 0 && st.rng.chance(1, 3) { 1 } else { 0 });
-                let pad = c.starts_with('`') || c.ends_with('`');
+                let pad = c.starts_with('`') || c.ends_with('`') || (c.starts_with(' ') && c.ends_with(' ') && !c.trim().is_empty());
                 out.push_str(&d);
                 if pad {
                     out.push(' ');
@@ -799,6 +832,7 @@ fn render_inlines(v: &[Inl], st: &mut Style, defs: &mut Vec<(String, String)>) -
                         defs.push((label, dest.clone()));
                     }
                     LStyle::Wiki => out.push_str(&format!("[[{}]]", dest)),
+                    LStyle::WikiPiped if st.in_cell => out.push_str(&format!("[[{}\\|{}]]", dest, t)),
                     LStyle::WikiPiped => out.push_str(&format!("[[{}|{}]]", dest, t)),
                     LStyle::Auto => out.push_str(&format!("<{}>", dest)),
                 }
@@ -900,6 +934,7 @@ fn render_block(b: &Blk, st: &mut Style, defs: &mut Vec<(String, String)>, _firs
                 v
             }
         }
+        Blk::Quote(blocks) if blocks.is_empty() => vec![">".to_string()],
         Blk::Quote(blocks) => render_blocks(blocks, st, defs, false)
             .into_iter()
             .map(|l| {
@@ -931,8 +966,11 @@ fn render_block(b: &Blk, st: &mut Style, defs: &mut Vec<(String, String)>, _firs
                 let mut inner: Vec<String> = vec![];
                 for (k, b) in item.iter().enumerate() {
                     if k > 0 {
-                        let needs_blank = !*tight
-                            || !matches!(b, Blk::List(..) | Blk::Code(..) | Blk::Quote(..))
+                        // (a comment line interrupts the item's text without a blank line, and text follows it directly)
+                        let is_comment = |x: &Blk| matches!(x, Blk::Html(l) if l.len() == 1 && l[0].starts_with("<!--"));
+                        let comment_run = is_comment(b) && matches!(item[k - 1], Blk::Para(_)) || is_comment(&item[k - 1]) && matches!(b, Blk::Para(_));
+                        let needs_blank = (!*tight && !comment_run)
+                            || !(matches!(b, Blk::List(..) | Blk::Code(..) | Blk::Quote(..)) || comment_run)
                             || matches!(b, Blk::List(true, start, _, _) if *start != 1)
                             || (matches!(b, Blk::Quote(..)) && matches!(item[k - 1], Blk::Quote(..)));
                         if needs_blank {
@@ -970,7 +1008,9 @@ fn render_block(b: &Blk, st: &mut Style, defs: &mut Vec<(String, String)>, _firs
         Blk::Table(aligns, head, rows) => {
             let mut v = vec![];
             let row = |cells: &Vec<Vec<Inl>>, st: &mut Style, defs: &mut Vec<(String, String)>| {
+                st.in_cell = true;
                 let c: Vec<String> = cells.iter().map(|c| render_inlines(c, st, defs)).collect();
+                st.in_cell = false;
                 format!("| {} |", c.join(" | "))
             };
             v.push(row(head, st, defs));
@@ -999,6 +1039,7 @@ pub fn render(doc: &Doc, seed: u64, crlf: bool) -> String {
         rng: Rng::new(seed ^ 0x5151),
         last_marker: None,
         avoid: None,
+        in_cell: false,
     };
     let mut defs = vec![];
     let mut lines: Vec<String> = vec![];
@@ -1110,6 +1151,8 @@ fn expected_blocks(blocks: &[Blk], chain: &str, out: &mut Vec<String>) {
                 let t = body.join("\n");
                 out.push(format!("{}|code[{}]|{}|", chain, info, t.trim_matches('\n')));
             }
+            // (an empty quote carries nothing and does not count as an instance)
+            Blk::Quote(inner) if inner.is_empty() => {}
             Blk::Quote(inner) => {
                 let c = sub(chain, format!("q{}", quotes));
                 quotes += 1;
